@@ -97,6 +97,10 @@ def check(run):
                     cid = "%d/%s/k%d%s" % (i, oid, k, short.strip())
                     lines.append((cid + "/inj", "failat %d%s" % (k, short)))
                     lines.append((cid, cmd))
+                    # the same operation once more on the same handle, the fault gone: the failed read must not have left
+                    # anything behind (a page or a record remembered as "read") that makes rows go missing without an error
+                    if k <= 4 or k >= nreads - 3 or k % 5 == 0:      # (a sample: the output of this phase is large)
+                        lines.append((cid + "/again", cmd))
                     meta[cid] = (db, cmd, base, k, short)
                     dist["injections"] += 1
     res, impl, _ = ops.run_cmds("c12-kth", lines, timeout=2400, sides=("impl",))
@@ -113,6 +117,13 @@ def check(run):
         elif orows != brows[:len(orows)] or "notfound" in orows:
             run.violation("%s with read #%d failing: delivered rows are not a prefix of the fault-free result" % (cmd[:50], k),
                           {"kind": "fault-not-prefix", "db": db.path, "command": cmd, "fail_read": k, "short": bool(short), "impl": out[-3:]})
+        again = impl.get(cid + "/again")
+        again_failed = again is not None and any(l.startswith("end err") or l.startswith("err ") for l in again)
+        if again_failed:
+            dist["second_call_fails_too"] = dist.get("second_call_fails_too", 0) + 1     # reported, not silent: allowed (a failed read of sqlite_master is remembered with its error until the schema changes)
+        if failed and again is not None and not again_failed and (rows_of(again) != brows or "notfound" in rows_of(again) and "notfound" not in brows):
+            run.violation("%s after read #%d of the previous, identical call on this handle had failed: %d rows and no error where the fault-free result has %d rows" % (cmd[:50], k, len(rows_of(again)), len(brows)),
+                          {"kind": "fault-poisons-handle", "db": db.path, "command": cmd, "fail_read": k, "short": bool(short), "first_call": out[-2:], "second_call": again[-3:], "fault_free_rows": len(brows)})
         if any("locked=true" in l for l in out):
             run.violation("%s with read #%d failing: read lock still held after the call" % (cmd[:50], k), {"kind": "lock-leak", "db": db.path, "command": cmd, "fail_read": k})
         run.nontrivial(cid)
